@@ -63,7 +63,7 @@ def situation(prog):
 
     def walk(block, in_loop, in_if):
         for s in block:
-            if s[0] == "for":
+            if s[0] in ("for", "forc"):
                 n = ac.count_cfg(s[2])
                 if n >= 2:
                     tags.add("loop_body_with_2+_cfgs")
@@ -73,14 +73,14 @@ def situation(prog):
                     tags.add("call_in_loop")
                 if any(x[0] == "if" for x in s[2]):
                     tags.add("if_in_loop")
-                if any(x[0] == "for" for x in s[2]):
+                if any(x[0] in ("for", "forc") for x in s[2]):
                     tags.add("nested_loop")
                 walk(s[2], True, in_if)
             elif s[0] == "if":
                 for b in (s[2], s[3] or ()):
                     if any(x[0] in ("call", "lcall") for x in b):
                         tags.add("call_in_if_branch")
-                    if any(x[0] == "for" for x in b):
+                    if any(x[0] in ("for", "forc") for x in b):
                         tags.add("loop_in_if")
                     walk(b, in_loop, True)
     walk(prog, False, False)
